@@ -242,6 +242,22 @@ def date_arith_laws(ctx):
         exprs += [f'x + interval("{text}")', f'x - interval("{text}")', f'interval("{text}") + x']
         refs += [lambda r, rd=rd: r['x'] + rd, lambda r, rd=rd: r['x'] - rd, lambda r, rd=rd: r['x'] + rd]
     run_law(ctx, 'interval_arithmetic', [('x', T_DATE)], rows, exprs, refs)
+    # chains: calendar arithmetic is not associative (month ends are clipped step by step), so a chain is its steps in order
+    exprs, refs = [], []
+    pairs = [(a, b) for a in specs for b in specs]
+    for (ta, ra), (tb, rb) in rng.sample(pairs, ctx.pick(40, len(pairs))):
+        exprs += [f'x + interval("{ta}") + interval("{tb}")', f'x + interval("{ta}") - interval("{tb}")', f'x - interval("{ta}") + interval("{tb}")',
+                  f'interval("{ta}") + x + interval("{tb}")', f'(x + interval("{ta}")) + interval("{tb}") = x + interval("{ta}") + interval("{tb}")']
+        refs += [lambda r, ra=ra, rb=rb: r['x'] + ra + rb, lambda r, ra=ra, rb=rb: r['x'] + ra - rb, lambda r, ra=ra, rb=rb: r['x'] - ra + rb,
+                 lambda r, ra=ra, rb=rb: r['x'] + ra + rb, lambda r: True]
+    (ta, ra), (tb, rb), (tc, rc) = rng.sample(specs, 3)
+    exprs += [f'x + interval("{ta}") + interval("{tb}") + interval("{tc}")', f'x + n + interval("{ta}") + 1', f'x + interval("{ta}") + n - interval("{tb}")']
+    refs += [lambda r: r['x'] + ra + rb + rc, lambda r: r['x'] + relativedelta(days=r['n']) + ra + relativedelta(days=1),
+             lambda r: r['x'] + ra + relativedelta(days=r['n']) - rb]
+    month_ends = [d for d in dates if d.day >= 28]
+    crows = [(d, rng.choice([0, 1, 2, 30, 365, -1, -31])) for d in (month_ends + rng.sample(dates, min(len(dates), ctx.pick(150, 1500))))]
+    for i in range(0, len(exprs), 30):
+        run_law(ctx, 'interval_chains', [('x', T_DATE), ('n', T_INT)], crows, exprs[i:i + 30], refs[i:i + 30])
 
 
 STRIDES = [('day', 1), ('day', 2), ('day', 3), ('day', 7), ('day', 30), ('month', 1), ('month', 2), ('month', 3), ('month', 6), ('year', 1), ('year', 2), ('year', 5)]
@@ -556,7 +572,7 @@ def replay(ctx, case):
 def finalize(merged):
     c = merged['counters']
     reasons = []
-    want = {'date_trunc', 'date_parts', 'date_arithmetic', 'interval_arithmetic', 'date_bin', 'account_decomposition', 'string_slicing', 'splitcomp',
+    want = {'date_trunc', 'date_parts', 'date_arithmetic', 'interval_arithmetic', 'interval_chains', 'date_bin', 'account_decomposition', 'string_slicing', 'splitcomp',
             'maxwidth', 'date_bin_end_of_month_origin', 'regex_functions', 'grepn', 'set_functions', 'numeric_functions', 'casts_object', 'casts_str', 'casts_decimal', 'casts_int_bool',
             'date_from_ymd'}
     laws = set(merged['sets'].get('laws', ()))
